@@ -27,6 +27,14 @@ ASSUMPTIONS = [
     "value; the Lean model (Config.set folded over the sequence, Driver op c10_config_seq) keeps the "
     "previous state on a refused assignment; predictions after an assignment are judged under the "
     "mode the model says is in force",
+    "two configuration objects: histories also interleave operations on a SECOND Config instance "
+    "(Config(), Config({key: value}) with documented and undocumented values, item / attribute "
+    "assignment on it, before and after assignments to the global object) with assignments to the "
+    "global formulae.config; the Lean model of the global object (c10_config_seq) is folded over the "
+    "assignments to the global object only, the value in force is read back after every operation on "
+    "the other instance and a prediction with unseen values follows each of them, judged by Spec.C10 "
+    "under the mode that model says is in force; the other instance is compared with the same model "
+    "folded over its own assignments",
     "missing values (None / NaN) in categorical columns of NEW data are not generated: the statement "
     "speaks of levels absent in training and does not settle whether a missing value is one (the "
     "unchanged library treats it as an unseen level: raises in 'error', zero row / appended group "
@@ -208,6 +216,49 @@ def config_sequences(seed, tier):
     return seqs
 
 
+OTHER_STYLES = ("new", "new_dict", "oitem", "oattr")
+
+
+def two_object_sequences(seed, tier):
+    """sequences in which operations on a SECOND Config instance are interleaved with assignments to
+    the global one.  Styles: `new` = Config(), `new_dict` = Config({key: value}), `oitem` / `oattr`
+    = assignment on the most recent other instance (created by Config() if there is none yet).
+    Exhaustive: every global mode in force x every single operation on another instance (each
+    documented value and two undocumented ones), with and without a later global assignment; and
+    drawn longer mixtures."""
+    seqs = []
+    vals = list(DOCUMENTED) + ["Error", "anything"]
+    for m in DOCUMENTED:
+        g = ("item", MODE_KEY, m)
+        seqs.append([g, ("new", "", "")])
+        for v in vals:
+            seqs.append([g, ("new_dict", MODE_KEY, v)])
+            for style in ("oitem", "oattr"):
+                seqs.append([g, ("new", "", ""), (style, MODE_KEY, v)])
+                # the other instance exists BEFORE the global assignment
+                seqs.append([("new", "", ""), g, (style, MODE_KEY, v)])
+        seqs.append([("new_dict", MODE_KEY, "silent"), g, ("oitem", "UNKNOWN", m)])
+    for i in range(60 if tier == "quick" else 2000):
+        r = rng_for(seed, "c10", "two-config-seq", i)
+        steps = []
+        for _ in range(r.randrange(2, 8)):
+            u = r.random()
+            if u < 0.4:
+                steps.append((r.choice(("item", "attr")), MODE_KEY, r.choice(DOCUMENTED)))
+            elif u < 0.5:
+                steps.append((r.choice(("item", "attr")), r.choice(CFG_KEYS), r.choice(CFG_VALS)))
+            elif u < 0.62:
+                steps.append(("new", "", ""))
+            elif u < 0.78:
+                steps.append(("new_dict", MODE_KEY, r.choice(vals)))
+            else:
+                k, v = ((MODE_KEY, r.choice(vals)) if r.random() < 0.85
+                        else (r.choice(CFG_KEYS), r.choice(CFG_VALS)))
+                steps.append((r.choice(("oitem", "oattr")), k, v))
+        seqs.append(steps)
+    return seqs
+
+
 def config_stage(res, seed, tier, replay=None):
     """The configuration as a history: after EVERY assignment the value in force is read back and
     compared with the Lean model of the configuration folded over the same sequence (a refused
@@ -241,28 +292,49 @@ def config_stage(res, seed, tier, replay=None):
     if replay is not None:
         seqs = [[tuple(st) for st in replay["config_steps"]]]
     else:
-        seqs = config_sequences(seed, tier)
+        seqs = config_sequences(seed, tier) + two_object_sequences(seed, tier)
+    Config = type(cfg)
     runs = []
     try:
         for si, steps in enumerate(seqs):
             cfg[MODE_KEY] = "error"                       # a history starts from the default
             pr = preds[(replay or {}).get("design", si) % len(preds)] if preds else None
             ios, evs = [], []
+            other, oseq = None, []          # the most recent other instance, its own assignments
             for i, (style, k, v) in enumerate(steps):
                 before = cfg[MODE_KEY]
                 try:
                     if style == "item":
                         cfg[k] = v
-                    else:
+                    elif style == "attr":
                         setattr(cfg, k, v)
+                    elif style == "new":
+                        other, oseq = Config(), []
+                    elif style == "new_dict":
+                        made = Config({k: v})
+                        other, oseq = made, [[k, v]]
+                    else:
+                        if other is None:
+                            other, oseq = Config(), []
+                        oseq = oseq + [[k, v]]
+                        if style == "oitem":
+                            other[k] = v
+                        else:
+                            setattr(other, k, v)
                     io = {"ok": True}
                 except Exception as e:  # noqa
                     io = {"err": type(e).__name__}
+                if style in OTHER_STYLES:
+                    io["other_seq"] = None if other is None else list(oseq)
+                    try:
+                        io["other_value"] = None if other is None else other[MODE_KEY]
+                    except Exception as e:  # noqa
+                        io["other_value"] = "unreadable:" + type(e).__name__
                 io["value"] = cfg[MODE_KEY]
                 io["value_attr"] = getattr(cfg, MODE_KEY)
                 io["before"] = before
                 ios.append(io)
-                if pr is not None and ("err" in io or i == len(steps) - 1):
+                if pr is not None and ("err" in io or i == len(steps) - 1 or style in OTHER_STYLES):
                     for part in ("common", "group"):
                         obj = getattr(pr["dm"], part)
                         try:
@@ -276,8 +348,31 @@ def config_stage(res, seed, tier, replay=None):
             runs.append((steps, pr, ios, evs))
     finally:
         cfg[MODE_KEY] = old
-    model = ask([{"op": "c10_config_seq", "steps": [[k, v] for _, k, v in steps]}
-                 for steps, _, _, _ in runs])
+    # the Lean model speaks about ONE configuration object: it is folded over the assignments to the
+    # GLOBAL object only (operations on another instance are no steps of that object); the state the
+    # harness puts every history in (`cfg[MODE_KEY] = "error"`) is its step 0
+    model = []
+    greqs = [{"op": "c10_config_seq", "steps": [[MODE_KEY, "error"]] + [
+        [k, v] for st, k, v in steps if st not in OTHER_STYLES]} for steps, _, _, _ in runs]
+    for (steps, _, _, _), mo in zip(runs, ask(greqs)):
+        per, g = [], 0
+        for st, _, _ in steps:
+            if st not in OTHER_STYLES:
+                g += 1
+                per.append(mo["steps"][g])
+            else:
+                per.append({"other": True, "value": mo["steps"][g]["value"]})
+        model.append({"steps": per})
+    # every other instance is a configuration object of its own: the model folded over ITS
+    # assignments (a refused first step keeps `Config()`'s initial state: the value of a new object)
+    oreqs, oown = [], []
+    for ri, (steps, _, ios, _) in enumerate(runs):
+        for i, io in enumerate(ios):
+            if io.get("other_seq") is not None:
+                oreqs.append({"op": "c10_config_seq", "steps": [["", ""]] + io["other_seq"]})
+                oown.append((ri, i))
+    for (ri, i), mo in zip(oown, ask(oreqs) if oreqs else []):
+        runs[ri][2][i]["other_model"] = mo["steps"][-1]
     sreqs, sowners = [], []
     for (steps, pr, ios, evs), mo in zip(runs, model):
         res.evaluations += 1
@@ -286,6 +381,33 @@ def config_stage(res, seed, tier, replay=None):
             res.traces += 1
             case = {"config_steps": [list(st) for st in steps[:i + 1]], "start": "error (default)"}
             impl = {kk: io[kk] for kk in ("ok", "err", "value") if kk in io}
+            if style in OTHER_STYLES:
+                # an operation on ANOTHER Config instance: no assignment to the global configuration
+                res.count("operations on a second Config instance")
+                accepted = style == "new" or (v in DOCUMENTED if style == "new_dict"
+                                              else is_documented(k, v))
+                om = io.get("other_model")
+                if om is not None and io["other_value"] != om["value"]:
+                    res.mismatches.append({"case": dict(case, object="second Config instance"),
+                                           "impl": {"value": io["other_value"]}, "model": om})
+                why = None
+                if io["value"] != ms["value"] or io["value"] != io["before"] \
+                        or io["value_attr"] != io["before"]:
+                    why = (f"an operation on ANOTHER Config object ({style}) changed the value in force "
+                           f"of the global configuration from {io['before']!r} to {io['value']!r} "
+                           f"(model of the global object: {ms['value']!r})")
+                    res.count("operations on a second Config instance that changed the global one")
+                elif accepted != ("ok" in io):
+                    why = ("a second Config instance accepts / refuses an undocumented / documented "
+                           "key or value")
+                elif "ok" in io and style != "new" and io["other_value"] != v:
+                    why = "an accepted assignment to a second Config instance is not its value afterwards"
+                if why:
+                    res.failures.append({"case": case, "impl": dict(impl, other=io["other_value"]),
+                                         "finding": None,
+                                         "expected": {"value in force (global)": io["before"],
+                                                      "model": ms}, "why": why})
+                continue
             if impl != ms:
                 res.mismatches.append({"case": case, "impl": impl, "model": ms})
             why = None
@@ -340,7 +462,8 @@ def explore(tier, seed, res=None, replay=None):
                 "opposite order of modes and in a drawn order with 'warning' repeated, every such "
                 "evaluation judged by Spec.C10 itself, and after an in-place edit; the configuration as "
                 "a history of accepted and refused assignments (value in force read back after every "
-                "step, prediction after every refused one); non-trivial = a case with at least one unseen value; distinct by "
+                "step, prediction after every refused one), also with operations on a second Config instance "
+                "interleaved (global value read back and a prediction after each of them); non-trivial = a case with at least one unseen value; distinct by "
                 "(formula, placement, mode)")
     n_cases = 300 if tier == "quick" else 8000
     cases = []
